@@ -325,6 +325,30 @@ func scWindowReopenedByGovernance(tw *hx.TraceWriter, rep *hx.Report, seed int64
 	w.blocks(3)
 }
 
+// (k) a node staked before the non-custodial upgrade (no output address in its record): a stake
+// message for it that names the SENDER as output address and is signed by that sender passes the
+// ante handler (the output address is a declared signer) and must be refused by the handler; the
+// operator then sets an output address, after which only operator and output address may act
+func scLegacyNodeTakeover(tw *hx.TraceWriter, rep *hx.Report, seed int64) {
+	w := startChain(tw, rep, baseCfg(seed), "k-legacy-node-takeover")
+	v := w.s.Project().Val["a1"]
+	r := w.block(blockOpts{Proposer: "a2"},
+		w.nodeStakeTx("a1", "a7", v.Tokens, v.Chains, v.URL, nil, "a7"),         // stranger names itself output and signs
+		w.nodeStakeTx("a1", "a7", v.Tokens+1000000, v.Chains, v.URL, nil, "a7"), // ... with a bump it pays itself
+		w.nodeUnstakeTx("a1", "a7", "a7"), w.nodeUnjailTx("a1", "a7", "a7"))
+	w.note("k:takeover-by-declared-output", r, 0)
+	w.note("k:takeover-with-bump", r, 1)
+	w.block(blockOpts{Proposer: "a2"}, w.nodeStakeTx("a1", "a10", v.Tokens, v.Chains, v.URL, nil, "a1")) // the operator sets the output address
+	v = w.s.Project().Val["a1"]
+	r = w.block(blockOpts{Proposer: "a2"},
+		w.nodeStakeTx("a1", "a7", v.Tokens, v.Chains, v.URL, nil, "a7"),  // stranger again
+		w.nodeStakeTx("a1", "a10", v.Tokens, v.Chains, urls[2], nil, "a10"), // the output address edits
+		w.nodeStakeTx("a1", "a7", v.Tokens, v.Chains, v.URL, nil, "a10"))  // the output address hands over to a7
+	w.note("k:stranger-after-output-set", r, 0)
+	w.block(blockOpts{Proposer: "a2"}, w.nodeUnstakeTx("a1", "a10", "a10"), w.nodeUnstakeTx("a1", "a7", "a7"))
+	w.blocks(6)
+}
+
 type scenario struct {
 	name string
 	run  func(tw *hx.TraceWriter, rep *hx.Report, seed int64)
@@ -339,6 +363,7 @@ func scEmpty(tw *hx.TraceWriter, rep *hx.Report, seed int64) {
 var scenarios = []scenario{
 	{"a", scUnstakePendingClaim}, {"b", scAppTransferMidSession}, {"c", scMaxValidatorsJailed}, {"d", scStakeMinimumSlash},
 	{"e", scDaoPools}, {"f", scFeeMultiplier}, {"g", scFeatureUpgrade}, {"h", scMatureAtBoundary}, {"i", scReplayBurnForceUnstake}, {"j", scWindowReopenedByGovernance},
+	{"k", scLegacyNodeTakeover},
 	{"zempty", scEmpty},
 }
 
